@@ -134,6 +134,19 @@ def nextPartitionRR (m : PMap) (t : String) (ps : List Int) (start : Option Nat)
     | none => none
     | some (x, st') => some (x, m.set t st')
 
+/-- The map a call leaves behind when it RAISES (`nextPartitionRR … = none`; the producer keeps going
+    after an exception).  A topic that already has a partitioner: `.partition` raised, after
+    `_set_partitions` (if the list differed) had stored the sorted copy and the new cycle
+    (`rrAfterError`).  A topic without one: if the constructor raises (`_set_partitions` in `__init__`:
+    `randint(0, -1)`), nothing is stored in `self.partitioners`; otherwise the constructed
+    partitioner IS stored before `.partition` is called on it and raises. -/
+def nextPartitionRRAfterError (m : PMap) (t : String) (ps : List Int) (start : Option Nat) : PMap :=
+  match m.get t with
+  | some st => m.set t (rrAfterError st ps)
+  | none => match setPartitions ps start with
+    | none => m
+    | some st => m.set t (rrAfterError st ps)
+
 end Afkak.Partitioner
 
 namespace Afkak.Partitioner
@@ -145,11 +158,13 @@ structure Call where
   deriving Repr, DecidableEq
 
 /-- The selections made for topic `t` (in order; `none` = the call raised) while the producer
-    processes an arbitrary interleaving of calls for any topics. -/
+    processes an arbitrary interleaving of calls for any topics.  A call that raises still leaves
+    its mark on the topic's partitioner (`nextPartitionRRAfterError`). -/
 def picksOf (t : String) (m : PMap) : List Call → List (Option Int)
   | [] => []
   | c :: cs => match nextPartitionRR m c.topic c.ps c.start with
-    | none => (if c.topic = t then [none] else []) ++ picksOf t m cs
+    | none => (if c.topic = t then [none] else []) ++
+        picksOf t (nextPartitionRRAfterError m c.topic c.ps c.start) cs
     | some (x, m') => (if c.topic = t then [some x] else []) ++ picksOf t m' cs
 
 end Afkak.Partitioner
